@@ -86,6 +86,7 @@ class CacheDriver:
         self.invs = []  # (receiver, args, kwargs) per invocation
         self.next_out = "val"
         self.objs = {}
+        self.nest = self.inner = None
         drv = self
         kw = dict(limit=limit, expiration=float(expn) if expn else None)
 
@@ -93,6 +94,12 @@ class CacheDriver:
             # (the receiver is remembered by slot and generation, not by reference: a discarded one has to be collectable)
             drv.invs.append((None if recv is None else (recv.idx, recv.gen), args, kwargs))
             n = len(drv.invs)
+            if drv.nest is not None:
+                # re-entrancy: this invocation calls the same cached function (same receiver) with other arguments
+                # before it returns
+                r2, key2 = drv.nest
+                drv.nest = None
+                drv.inner = drv._invoke(r2, key2)
             if drv.next_out == "val":
                 o = drv.objs[n] = Val(n)
                 return o
@@ -170,6 +177,15 @@ class CacheDriver:
             res = self._invoke(r, key)
             self.last = dict(inv=res["inv"], fresh=res["fresh"], out=res["out"], at=self.now, drain=())
             return self.last
+        if name == "CallNested":
+            r, key, key2 = args
+            self.next_out = "val"
+            self.nest, self.inner = (r, key2), None
+            res = self._invoke(r, key)
+            self.nest = None
+            inner = () if self.inner is None else (self.inner["inv"],)
+            self.last = dict(inv=res["inv"], fresh=res["fresh"], out=res["out"], at=self.now, drain=inner)
+            return self.last
         if name == "Renew":
             # the instance in the slot is dropped - really dropped: collected - and a new one takes the slot (the
             # allocator tends to hand out the very same address again)
@@ -217,6 +233,11 @@ def gen_trace(rnd, length):
             elif rnd.random() < 0.25:
                 args = [rnd.choice([1, 1, 2, 3])]
                 name = "Advance"
+            elif form.startswith("sync") and nkeys >= 2 and rnd.random() < 0.2:
+                r = rnd.choice([1, 2, 3]) if form.endswith("method") else 0
+                k = rnd.randint(1, nkeys)
+                args = [r, k, rnd.choice([x for x in range(1, nkeys + 1) if x != k])]
+                name = "CallNested"
             else:
                 r = rnd.choice([1, 2, 3]) if form.endswith("method") else 0
                 args = [r, rnd.randint(1, nkeys), "exc" if rnd.random() < 0.15 else "val"]
@@ -257,20 +278,25 @@ def groups(tier):
     because the method forms multiply the branching by the number of receivers"""
     if tier == "quick":
         return [
-            ("fn", dict(NKeys=3, NRecv=1, Forms=FN, Limits=[1, 2, 3], Expirations=[0, 2], MaxT=3, MaxOps=5, Outs=["val", "exc"], Steps=[1], MaxRenew=1, Bug="none"),
-             dict(NKeys=4, NRecv=1, Forms=FN, Limits=[1, 2], Expirations=[0, 2], MaxT=3, MaxOps=3, Outs=["val", "exc"], Steps=[1], MaxRenew=1, Bug="none")),
-            ("method", dict(NKeys=2, NRecv=2, Forms=METH, Limits=[1, 2, 3], Expirations=[0, 2], MaxT=3, MaxOps=5, Outs=["val", "exc"], Steps=[1], MaxRenew=1, Bug="none"),
-             dict(NKeys=2, NRecv=2, Forms=METH, Limits=[1, 2], Expirations=[0, 2], MaxT=3, MaxOps=3, Outs=["val", "exc"], Steps=[1], MaxRenew=1, Bug="none")),
+            ("fn", dict(NKeys=3, NRecv=1, Forms=FN, Limits=[1, 2, 3], Expirations=[0, 2], MaxT=3, MaxOps=5, Outs=["val", "exc"], Steps=[1], MaxRenew=1, Nested=False, Bug="none"),
+             dict(NKeys=4, NRecv=1, Forms=FN, Limits=[1, 2], Expirations=[0, 2], MaxT=3, MaxOps=3, Outs=["val", "exc"], Steps=[1], MaxRenew=1, Nested=False, Bug="none")),
+            ("method", dict(NKeys=2, NRecv=2, Forms=METH, Limits=[1, 2, 3], Expirations=[0, 2], MaxT=3, MaxOps=5, Outs=["val", "exc"], Steps=[1], MaxRenew=1, Nested=False, Bug="none"),
+             dict(NKeys=2, NRecv=2, Forms=METH, Limits=[1, 2], Expirations=[0, 2], MaxT=3, MaxOps=3, Outs=["val", "exc"], Steps=[1], MaxRenew=1, Nested=False, Bug="none")),
             # longer histories on a narrow configuration: expiry and LRU order interacting (re-stored keys, eviction
             # after a refresh) need 6+ operations to show
-            ("deep", dict(NKeys=3, NRecv=1, Forms=["sync_fn"], Limits=[2], Expirations=[2], MaxT=6, MaxOps=7, Outs=["val"], Steps=[3], MaxRenew=0, Bug="none"),
-             dict(NKeys=3, NRecv=1, Forms=["sync_fn", "async_fn"], Limits=[2], Expirations=[2], MaxT=6, MaxOps=6, Outs=["val"], Steps=[3], MaxRenew=0, Bug="none")),
+            ("deep", dict(NKeys=3, NRecv=1, Forms=["sync_fn"], Limits=[2], Expirations=[2], MaxT=6, MaxOps=7, Outs=["val"], Steps=[3], MaxRenew=0, Nested=False, Bug="none"),
+             dict(NKeys=3, NRecv=1, Forms=["sync_fn", "async_fn"], Limits=[2], Expirations=[2], MaxT=6, MaxOps=6, Outs=["val"], Steps=[3], MaxRenew=0, Nested=False, Bug="none")),
+            # re-entrancy: the function body calls the same cached function (memoised recursion), synchronous forms
+            ("nested", dict(NKeys=3, NRecv=1, Forms=["sync_fn", "sync_method"], Limits=[1, 2], Expirations=[0, 2], MaxT=2, MaxOps=4, Outs=["val"], Steps=[1], MaxRenew=0, Nested=True, Bug="none"),
+             dict(NKeys=3, NRecv=1, Forms=["sync_fn", "sync_method"], Limits=[1, 2], Expirations=[0, 2], MaxT=2, MaxOps=3, Outs=["val"], Steps=[1], MaxRenew=0, Nested=True, Bug="none")),
         ]
     return [
-        ("fn", dict(NKeys=3, NRecv=1, Forms=FN, Limits=[1, 2, 3], Expirations=[0, 2, 3], MaxT=4, MaxOps=6, Outs=["val", "exc"], Steps=[1], MaxRenew=1, Bug="none"),
-         dict(NKeys=4, NRecv=1, Forms=FN, Limits=[1, 2, 3], Expirations=[0, 2], MaxT=3, MaxOps=4, Outs=["val", "exc"], Steps=[1], MaxRenew=1, Bug="none")),
-        ("method", dict(NKeys=2, NRecv=2, Forms=METH, Limits=[1, 2, 3], Expirations=[0, 2, 3], MaxT=4, MaxOps=6, Outs=["val", "exc"], Steps=[1], MaxRenew=1, Bug="none"),
-         dict(NKeys=2, NRecv=2, Forms=METH, Limits=[1, 2, 3], Expirations=[0, 2], MaxT=3, MaxOps=4, Outs=["val", "exc"], Steps=[1], MaxRenew=1, Bug="none")),
+        ("fn", dict(NKeys=3, NRecv=1, Forms=FN, Limits=[1, 2, 3], Expirations=[0, 2, 3], MaxT=4, MaxOps=6, Outs=["val", "exc"], Steps=[1], MaxRenew=1, Nested=False, Bug="none"),
+         dict(NKeys=4, NRecv=1, Forms=FN, Limits=[1, 2, 3], Expirations=[0, 2], MaxT=3, MaxOps=4, Outs=["val", "exc"], Steps=[1], MaxRenew=1, Nested=False, Bug="none")),
+        ("method", dict(NKeys=2, NRecv=2, Forms=METH, Limits=[1, 2, 3], Expirations=[0, 2, 3], MaxT=4, MaxOps=6, Outs=["val", "exc"], Steps=[1], MaxRenew=1, Nested=False, Bug="none"),
+         dict(NKeys=2, NRecv=2, Forms=METH, Limits=[1, 2, 3], Expirations=[0, 2], MaxT=3, MaxOps=4, Outs=["val", "exc"], Steps=[1], MaxRenew=1, Nested=False, Bug="none")),
+        ("nested", dict(NKeys=3, NRecv=1, Forms=["sync_fn", "sync_method"], Limits=[1, 2], Expirations=[0, 2], MaxT=3, MaxOps=5, Outs=["val"], Steps=[1], MaxRenew=0, Nested=True, Bug="none"),
+         dict(NKeys=3, NRecv=1, Forms=["sync_fn", "sync_method"], Limits=[1, 2], Expirations=[0, 2], MaxT=3, MaxOps=4, Outs=["val"], Steps=[1], MaxRenew=0, Nested=True, Bug="none")),
     ]
 
 
@@ -279,10 +305,10 @@ def run(rep, work, tier, seed):
     rep.extra["constants"] = {g[0]: dict(model=g[1], conformance=g[2]) for g in gs}
     for name, mc, conf in gs:
         leg_m(rep, work, SPEC, f"mc_{name}_{tier}", cfg_text(mc, spec="Spec", invariants=INVS, properties=["Complete"]),
-              expect_actions=["Call", "Advance", "Drain"] + (["Renew"] if name == "method" else []), timeout=3000)
+              expect_actions=["Call", "Advance", "Drain"] + (["Renew"] if name == "method" else []) + (["CallNested"] if name == "nested" else []), timeout=3000)
     if tier == "thorough":
         small = dict(NKeys=3, NRecv=1, Forms=["sync_fn"], Limits=[1, 2], Expirations=[0, 2], MaxT=4, MaxOps=5,
-                     Outs=["val", "exc"], Steps=[1], MaxRenew=0)
+                     Outs=["val", "exc"], Steps=[1], MaxRenew=0, Nested=False)
         for bug, inv in (("fifo", ["Complete"]), ("expiry_le", ["Complete"]), ("ge_limit", ["Complete"]),
                          ("evict_newest", ["Complete"])):
             leg_mutant(rep, work, SPEC, f"mutant_{bug}",
@@ -305,8 +331,8 @@ def run(rep, work, tier, seed):
                          "nren", "nops", "drained", "obs"],
               constants=dict(NKeys=7, NRecv=3, Forms='{"sync_fn", "sync_method", "async_fn", "async_method"}', Limits="1..4",
                              Expirations="{0, 2, 3, 5}", MaxT=100000, MaxOps=100000, Outs='{"val", "exc"}',
-                             Steps="1..3", MaxRenew=100000, Bug='"none"'),
-              config_vars=["form", "limit", "expn"], actions=dict(Call=3, Advance=1, Renew=1, Drain=0),
+                             Steps="1..3", MaxRenew=100000, Nested="TRUE", Bug='"none"'),
+              config_vars=["form", "limit", "expn"], actions=dict(Call=3, CallNested=3, Advance=1, Renew=1, Drain=0),
               invariants=["Capacity", "NoDuplicateKeys", "Sound"])
     rep.assumptions += [
         "key alphabet f(-1), f(-1.0), f(), f(-2), f(x=-1), f(True), f(1) (==-equal but differently typed, positional vs keyword, "
